@@ -26,7 +26,7 @@ Theorem C08_level2_state_restored :
 Proof.
   exact (fun V Q A GV Val dV dQ key_of dim_ok exc_ok pix_shape post F c sch cnt st =>
            restored_and_repeat V Q A GV Val dV dQ key_of dim_ok exc_ok pix_shape post F
-                               gen_prog c sch cnt st (eq_refl true)).
+                               gen_wrapper gen_prog c sch cnt st (eq_refl true)).
 Qed.
 Print Assumptions C08_level2_state_restored.
 
@@ -44,7 +44,7 @@ Theorem C08_body_only_extends_paths :
 Proof.
   exact (fun V Q A GV Val dV dQ key_of dim_ok exc_ok pix_shape post F c sch cnt st =>
            plain_only_extends V Q A GV Val dV dQ key_of dim_ok exc_ok pix_shape post F
-                              gen_prog c sch cnt st (eq_refl true)).
+                              gen_wrapper gen_prog c sch cnt st (eq_refl true)).
 Qed.
 Print Assumptions C08_body_only_extends_paths.
 
@@ -65,6 +65,15 @@ Theorem C08_prefix_field_func_faults_refuted :
     <> [w_src (Some 3); w_sens].
 Proof. exact prefix_refuted_field_func_faults. Qed.
 Print Assumptions C08_prefix_field_func_faults_refuted.
+
+(* the static acceptance check separates the shapes: the old statement list is rejected under every
+   wrapper, each repaired body is accepted only with the finally that matches what it records *)
+Theorem C08_static_check_discriminates :
+  wrapper_ok WFinallyTrim prog_trim = true /\ wrapper_ok WFinallyRestore prog_restore = true /\
+  wrapper_ok WPlain prog_prefix = false /\ wrapper_ok WFinallyTrim prog_prefix = false /\
+  wrapper_ok WFinallyTrim prog_restore = false /\ wrapper_ok WFinallyRestore prog_trim = false.
+Proof. exact shapes_accepted. Qed.
+Print Assumptions C08_static_check_discriminates.
 
 (* ... and for a crash at any of the 12 statements between the tiling loop and the reset loop *)
 Theorem C08_prefix_any_crash_point_refuted :
